@@ -6,7 +6,7 @@ from vlib import bip39
 ID = "C02"
 NEEDS_CLI = True
 THOROUGH_ROUNDS = 1
-RULE = ("op mn.seed <phrase> <passphrase>: all five phrase lengths, layout variants of the phrase, passphrases: empty, ASCII, "
+RULE = ("op mn.seed <phrase> <passphrase>: all five phrase lengths, layout variants of the phrase (incl. exactly one separator of every white-space kind), passphrases: empty, ASCII, "
         "precomposed/decomposed pairs, full-width/ASCII pairs, ligatures, Hangul, combining marks in non-canonical order, astral plane; "
         "every code point with an NFKD mapping or non-zero combining class alone between ASCII letters (all below U+0250, stratified sample above; thorough: all); code points restricted to those assigned in Unicode 14.0 (python unicodedata) — the crate ships Unicode 16 tables; "
         "NFKD-equivalent pairs must give equal seeds (extra check); the repo's four seed vectors; passphrases with leading/trailing (Unicode) white space; a sample of the pairs re-run through `export --password` (flag and environment) so that the wallet the commands build is covered too; "
@@ -60,6 +60,17 @@ def gen(rng, tier):
             alt = unicodedata.normalize(form, pw)
             if alt != pw:
                 cases.append(Case("mn.seed %s %s" % (hx(" ".join(ws)), hx(alt)), tags=("nfkd-equivalent",), meta=meta))
+    # exactly one separator character between the words, nothing around them: tab, LF, CR, VT, FF, NEL, NBSP-like and wide spaces
+    # (the text is as long as the canonical phrase, or differs only by the width of the separators) — same seed as with spaces
+    SEPS = ["\t", "\n", "\r", "\x0b", "\x0c", "\u0085", "\u2000", "\u2003", "\u2009", "\u200a", "\u2028", "\u2029", "\u205f", "\u3000", "\u1680"]
+    for i, sep in enumerate(SEPS):
+        ws = bip39.rand_phrase(rng, [12, 15, 18, 21, 24][i % 5])
+        pw = rng.choice(["", "TREZOR", "pässwörd"])
+        g = {"group": "sep-%d-%d" % (i, rng.getrandbits(48))}
+        cases.append(Case("mn.seed %s %s" % (hx(" ".join(ws)), hx(pw)), tags=("layout", "canonical"), meta=g))
+        cases.append(Case("mn.seed %s %s" % (hx(sep.join(ws)), hx(pw)), tags=("layout", "single-separator"), meta=g))
+        k = rng.randrange(1, len(ws))
+        cases.append(Case("mn.seed %s %s" % (hx(" ".join(ws[:k]) + sep + " ".join(ws[k:])), hx(pw)), tags=("layout", "one-odd-separator"), meta=g))
     # canonical phrases of exactly 127 / 128 / 129 bytes (the HMAC-SHA512 block size) and other lengths around it
     want = {126: 2, 127: 3, 128: 4, 129: 3, 130: 2}
     tries = 0
